@@ -1,6 +1,8 @@
 """C17 - scale and bias act as an exact affine wrapper around the stored code."""
 from . import conv, sizes, flags, pipeline
 
+from . import routes, fresh, flags, sizes, conv, dtype, carriers, funcs, ops, strings, pipeline, widths
+
 EXPLANATION = (
     "R1 the normaliser's scaling block normalises (rational normal form, case split on bias == 0 / scale == 1) to (v - bias)/scale and is skipped for raw codes; "
     "R2 astype's read map normalises to scale*val + bias after code/2^n_frac on every dtype branch, and read(store(v)) = v as terms; resize restores scaled objects "
@@ -20,6 +22,6 @@ def run(ck):
     conv.dtype_comparisons(ck, "C17.R5")
     conv.getitem_keeps_map(ck, "C17.R6")
     conv.sizes_use_transformed_value(ck, "C17.R7")
-    from . import ops
     ops.conversions(ck, "C16.R2")       # every read route (float()/int()/complex()) goes through astype, where the read map lives
     pipeline.store_pipeline(ck, "C01.R2", want_bounds=False)
+    fresh.constructor_state(ck, "C20.R2")            # results and operands are built by the constructor: own status record, own final configuration
